@@ -5,8 +5,12 @@
    built-in CopyTo use, of CopyTo of the built-in inspectors (/repo/stranymap.go
    cpy: one buf.Bufferize / buf.BufferizeString per text value on every level of a
    nested map[string]any; /repo/strings.go CopyTo: the same per element), of
-   values the client owns outside the buffer (the sources of those copies), and
-   of what a client may do with a handed-out value.
+   values the client owns outside the buffer (the sources of those copies; a
+   []byte source may have SPARE CAPACITY: empty but allocated, or filled below its
+   capacity - the whole capacity is the client's), of copies whose source fields
+   ARE such observed values (generated CopyTo, StringAnyMapInspector /
+   StringsInspector / StaticInspector CopyTo), and of what a client may do with a
+   handed-out value (overwrite, append, unbuffered Set, x = x[:0]).
 
    Memory is explicit here (and only here): a heap of byte arrays; a Go slice is
    (array, offset, len, cap).  `append` writes in place when the data fits and
@@ -95,6 +99,16 @@ Definition items_of_toks (ts : list tok) : list item :=
 Definition items_of_strings (srcstr dststr : bool) (ds : list (list ascii)) : list item :=
   map (fun d => (srcstr, dststr, d)) ds.
 
+(* how the observed values h_k are copied by OCopyHeld *)
+Inductive via :=
+| VGenerated              (* generated CopyTo of an object whose fields hold them: bb := Acquire; per field
+                             bb, x = inspector.Bufferize[String](bb, h_k); Release(bb) *)
+| VMap                    (* StringAnyMapInspector.CopyTo of a flat map[string]any holding them (string, *string,
+                             []byte, *[]byte): per value buf.Bufferize[String] *)
+| VStrings (dststr : bool)(* StringsInspector.CopyTo of the []string / [][]byte holding them (all of one kind) to
+                             *[]string (true) / *[][]byte (false) *)
+| VStatic.                (* StaticInspector.CopyTo of the one value *)
+
 Inductive op :=
 | OBufferize (d : list ascii) (extra : nat)         (* ByteBuffer.Bufferize *)
 | OBufferizeString (d : list ascii) (extra : nat)   (* ByteBuffer.BufferizeString *)
@@ -130,7 +144,21 @@ Inductive op :=
 | OCopyStrings (reuse srcstr dststr : bool) (ds : list (list ascii)) (extra : nat)
                                                      (* StringsInspector.CopyTo []string / [][]byte -> *[]string / *[][]byte
                                                         (appended to the destination): per element one buf.BufferizeString /
-                                                        buf.Bufferize, converted to the destination's element type in place *).
+                                                        buf.Bufferize, converted to the destination's element type in place *)
+| OSourceCap (d : list ascii) (spare : nat)          (* a []byte the client owns OUTSIDE the buffer with SPARE CAPACITY comes under
+                                                        observation: make([]byte, len d, len d + spare) filled with d - an array
+                                                        of its own whose whole capacity belongs to the client (d = [] : the
+                                                        empty-but-allocated value a pooled object holds after x = x[:0]) *)
+| CTruncate (k : nat)                                (* client: h_k = h_k[:0] - emptied, the capacity stays with the holder *)
+| OCopyHeld (v : via) (reuse : bool) (ks : list nat) (extra : nat)
+                                                     (* a copy through the buffer whose SOURCE fields are the observed values
+                                                        h_k (k in ks) themselves - client-owned sources with or without spare
+                                                        capacity, or values handed out earlier -, as they are now (pointer,
+                                                        length, capacity): CopyTo of a generated type whose string / []byte
+                                                        fields hold them, or CopyTo of a built-in inspector on a map /
+                                                        list / single value holding them; into a fresh destination or the one
+                                                        used before (reuse).  Every source must be live; nothing happens
+                                                        otherwise.  Each copy is a new value in the buffer. *).
 
 Section Step.
 Variable tight : bool.
@@ -166,6 +194,39 @@ Fixpoint copy_fields (h : heap) (bb : slice) (fs : list (bool * list ascii)) (ex
 Definition source1 (h : heap) (isstr : bool) (d : list ascii) : heap * hand :=
   let '(h', a) := alloc h (List.length d) d in
   (h', mk_hand isstr {| s_arr := a; s_off := 0; s_len := List.length d; s_cap := List.length d |} d).
+
+(* a client-owned []byte outside the buffer with spare capacity: make([]byte, len d, len d + spare) *)
+Definition source_cap (h : heap) (d : list ascii) (spare : nat) : heap * hand :=
+  let '(h', a) := alloc h (List.length d + spare) d in
+  (h', mk_hand false {| s_arr := a; s_off := 0; s_len := List.length d; s_cap := List.length d + spare |} d).
+
+(* the observed values an OCopyHeld reads: all present and live *)
+Fixpoint held (lg : list hand) (ks : list nat) : option (list hand) :=
+  match ks with
+  | [] => Some []
+  | k :: r =>
+    match nth_error lg k, held lg r with
+    | Some x, Some xs => if hd_live x then Some (x :: xs) else None
+    | _, _ => None
+    end
+  end.
+
+Definition via_ok (v : via) (xs : list hand) : bool :=
+  match v with
+  | VGenerated | VMap => true
+  | VStrings _ => forallb hd_str xs || forallb (fun x => negb (hd_str x)) xs
+  | VStatic => Nat.eqb (List.length xs) 1
+  end.
+
+(* the kind of the copy: the source's own, except for a strings copy (the destination's element type) *)
+Definition via_kind (v : via) (x : hand) : bool :=
+  match v with VStrings ds => ds | _ => hd_str x end.
+
+Definition held_fields (v : via) (xs : list hand) : list (bool * list ascii) :=
+  map (fun x => (via_kind v x, hd_want x)) xs.
+
+(* the generated cpy works on a local slice and releases it; the built-in inspectors call the buffer's methods *)
+Definition via_releases (v : via) : bool := match v with VGenerated => true | _ => false end.
 
 (* the copies of a built-in CopyTo: ByteBuffer.Bufferize[String] per value, the buffer's own
    slice moves on with every call; source and copy are both logged *)
@@ -267,6 +328,29 @@ Definition step (st : state) (o : op) : state :=
   | OCopyStrings _ ss ds l e =>
     let '(h', bb', xs) := copy_values h bb (items_of_strings ss ds l) e in
     {| st_heap := h'; st_bb := bb'; st_log := lg ++ xs |}
+  | OSourceCap d spare =>
+    let '(h', x) := source_cap h d spare in
+    {| st_heap := h'; st_bb := bb; st_log := lg ++ [x] |}
+  | CTruncate k =>
+    match nth_error lg k with
+    | Some x =>
+      if negb (hd_str x) && hd_live x then
+        let s0 := {| s_arr := s_arr (hd_sl x); s_off := s_off (hd_sl x); s_len := 0; s_cap := s_cap (hd_sl x) |} in
+        let '(h', s') := append h s0 [] 0 in
+        {| st_heap := h'; st_bb := bb;
+           st_log := upd_nth k {| hd_str := false; hd_sl := s'; hd_want := []; hd_live := true |} lg |}
+      else st
+    | None => st
+    end
+  | OCopyHeld v _ ks e =>
+    match held lg ks with
+    | Some xs =>
+      if via_ok v xs then
+        let '(h', bb', ys) := copy_fields h bb (held_fields v xs) e in
+        {| st_heap := h'; st_bb := if via_releases v then release bb bb' else bb'; st_log := lg ++ ys |}
+      else st
+    | None => st
+    end
   end.
 
 (* the same copies, one operation per value *)
